@@ -211,7 +211,7 @@ inline void parse_args(int argc, char **argv) { Args &a=args();
     mp_set_memory_functions(gmp_alloc_throw,gmp_realloc_throw,gmp_free_plain);
 #endif
 #ifndef __SANITIZE_ADDRESS__
-    { struct rlimit rl; rl.rlim_cur=rl.rlim_max=(rlim_t)6<<30; setrlimit(RLIMIT_AS,&rl); }
+    { struct rlimit rl; rl.rlim_cur=rl.rlim_max=(rlim_t)9<<30; setrlimit(RLIMIT_AS,&rl); }   // address space; the resident set is guarded at 3.5 GB in Ctx::poly
 #endif
     for (int i=1;i<argc;++i) { std::string k=argv[i]; auto nxt=[&]() { if (i+1>=argc) { std::cerr<<"missing value for "<<k<<"\n"; exit(2); } return std::string(argv[++i]); };
         if (k=="--tier") a.tier=nxt(); else if (k=="--seed") a.seed=atol(nxt().c_str()); else if (k=="--shard") { std::string s=nxt(); a.shard_i=atoi(s.c_str()); a.shard_n=atoi(s.substr(s.find('/')+1).c_str()); }
